@@ -2,6 +2,8 @@ package sym
 
 import (
 	"fmt"
+	"os"
+	"runtime"
 	"sort"
 	"strings"
 	"sync"
@@ -77,6 +79,7 @@ type Config struct {
 	QueryLog    func(worker int) interface{ Write([]byte) (int, error) }
 	StopOnViol  bool
 	Witness     bool
+	Tolerant    func(string) bool
 }
 
 type sharedWork struct {
@@ -173,6 +176,7 @@ func Explore(cfg *Config) (*Report, error) {
 			m.KnownListed = cfg.KnownListed
 			m.Trace = cfg.Trace
 			m.Witness = cfg.Witness
+			m.TolerantInit = cfg.Tolerant
 			if cfg.StepBudget > 0 {
 				m.StepBudget = cfg.StepBudget
 			}
@@ -426,7 +430,15 @@ func (m *Machine) runPath(w Work, entry func()) (p *Path) {
 				p.Violations[len(p.Violations)-1].Case.End = "panic"
 				m.path = nil
 			default:
-				panic(r)
+				// a Go-level panic inside the interpreter: an engine defect or an unmodelled
+				// value shape; the path is inconclusive, never a pass
+				p.End = "engine"
+				buf := make([]byte, 2048)
+				buf = buf[:runtime.Stack(buf, false)]
+				p.Inconclusive = append(p.Inconclusive, fmt.Sprintf("engine: internal error: %v", r))
+				if m.Trace {
+					fmt.Fprintf(os.Stderr, "engine panic: %v\n%s\n", r, buf)
+				}
 			}
 		}
 	}()
